@@ -755,6 +755,13 @@ func processFuncProvider(fset *token.FileSet, fn *types.Func) (*Provider, []erro
 }
 
 func injectorFuncSignature(sig *types.Signature) (*types.Tuple, outputSignature, error) {
+	// The generated implementation is a plain function.
+	if sig.Recv() != nil {
+		return nil, outputSignature{}, errors.New("an injector cannot be a method")
+	}
+	if sig.TypeParams().Len() > 0 {
+		return nil, outputSignature{}, errors.New("an injector cannot have type parameters")
+	}
 	out, err := funcOutput(sig)
 	if err != nil {
 		return nil, outputSignature{}, err
